@@ -102,6 +102,11 @@ func hostileBodies(rng *gen.RNG) []string {
 		`{"raw_suite":"OCRA-1:HOTP-SHA1-6:QN99","input":{}`, `{"raw_suite":"nope","input":{}`, `{"raw_suite":" ","input":{}`, `{"raw_suite":"OCRA-1:HOTP-SHA1-6:QN08"`,
 		`{"raw_suite":"OCRA-1:HOTP-SHA1-6:QN08","suite":{"hash_function":"SHA512","code_digits":8},"input":{"challenge_hex":"3132333435363738"}`,
 		`{"raw_suite":"OCRA-1:HOTP-SHA1-6:QN08","suite":{"code_digits":0},"input":{"challenge_hex":"3132333435363738"}`,
+		`{"raw_suite":" ","suite":{"hash_function":"SHA1","code_digits":6,"include_counter":true},"input":{"counter_hex":"0000000000000001"}`,
+		`{"raw_suite":"\t","suite":{"hash_function":"SHA1","code_digits":6,"challenge_format":1,"include_challenge":true},"input":{"challenge_hex":"3132333435363738"}`,
+		`{"raw_suite":"  ","suite":{"code_digits":3},"input":{}`,
+		`{"raw_suite":"\n","suite":{},"input":null`,
+		`{"raw_suite":"nope","suite":{"hash_function":"SHA1","code_digits":6,"include_counter":true},"input":{"counter_hex":"0000000000000001"}`,
 		`{"suite":{},"input":{}`, `{"suite":null,"input":{}`, `{"suite":{"code_digits":0},"input":{}`, `{"suite":{"code_digits":-1},"input":{}`, `{"suite":{"code_digits":11},"input":{}`,
 		`{"suite":{"code_digits":9223372036854775807,"hash_function":"x"},"input":{}`, `{"suite":{"code_digits":6,"challenge_format":99,"include_challenge":true},"input":{"challenge_hex":"00"}`,
 		`{"suite":{"code_digits":6,"challenge_format":-5,"include_challenge":true},"input":{"challenge_hex":"3132333435363738"}`,
